@@ -40,6 +40,22 @@ func init() {
 			rep.Grounds = append(rep.Grounds, Ground{Name: "plugin/" + fd.GetName() + "/answers-with-sources", OK: err == nil && perr == "" && len(files) == 1,
 				Text: "the plugin answers a valid proto3 request with generated sources (no error, no crash)", Detail: detail,
 				Tag: map[string]string{"request_b64": base64.StdEncoding.EncodeToString(rb), "kind": "plugin-request"}})
+			// under the default paths=import the file is named after the Go import path of its go_package, not after the
+			// directory of the .proto file
+			imp := fd.GetOptions().GetGoPackage()
+			if i := strings.Index(imp, ";"); i >= 0 {
+				imp = imp[:i]
+			}
+			base := strings.TrimSuffix(fd.GetName()[strings.LastIndex(fd.GetName(), "/")+1:], ".proto")
+			want := imp + "/" + base + ".pulsar.go"
+			got := ""
+			for n := range files {
+				got = n
+			}
+			if err == nil && perr == "" && len(files) == 1 {
+				rep.Grounds = append(rep.Grounds, Ground{Name: "plugin/" + fd.GetName() + "/file-name", OK: got == want,
+					Text: "the generated file is named <Go import path>/<proto base name>.pulsar.go (paths=import)", Detail: fmt.Sprintf("got %q, want %q", got, want)})
+			}
 		}
 		// negative configurations
 		neg := func(name, param string, file *descriptorpb.FileDescriptorProto, gen bool, wantErr bool, wantFiles int) {
